@@ -555,6 +555,12 @@ fn check_type_relation<T: TypeLookup>(
                 receive: receive2,
             },
         ) => {
+            // Two process types always share a value: a process that receives nothing and never
+            // finishes is assignable to both (`never` is the bottom of both positions).
+            if mode == UnionMode::Any {
+                return true;
+            }
+
             let send_ok = match (send1, send2) {
                 (Some(s1), Some(s2)) => check_type_relation(
                     *s1,
@@ -597,6 +603,14 @@ fn check_type_relation<T: TypeLookup>(
                 receive: receive2,
             },
         ) => {
+            // Two function types always share a value: parameter and receive types are
+            // contravariant, so a function accepting the union of both parameter types (and of both
+            // receive types) whose result is `never` is assignable to both. Overlap must not prune a
+            // branch such a value can reach.
+            if mode == UnionMode::Any {
+                return true;
+            }
+
             // Record the coinductive hypothesis here as well: a recursive function type re-enters
             // this arm through its own `Cycle`, and without the assumption nothing stops the
             // recursion. Retracted below if the check fails.
